@@ -95,7 +95,8 @@ class CHECK(core.Check):
             "module alone (quick and thorough), every ordered pair of modules of the same package (thorough; of the pairs "
             "whose two modules are both loaded by `import ioflo` itself only every 7th). Generated: "
             "random orders of random subsets (2..all modules, with repeats and with the top-level package at a random "
-            "position). Thorough tier also: the synthetic tree harness/corpus/C01-synth (42 scenario packages exercising "
+            "position). Thorough tier also: about 900 random ordered pairs and 300 random triples of modules that "
+            "`import ioflo` does not load, across packages (the region where order independence is not proved); the synthetic tree harness/corpus/C01-synth (42 scenario packages exercising "
             "the import protocol: cycles, partial modules, star/__all__, fromlist, namespace packages, try/except, "
             "stdlib sub-module attributes ...; its modules alone, all ordered pairs and some permutations inside a "
             "scenario, random orders) run against the same model sources built over that tree; there only model == "
@@ -113,11 +114,16 @@ class CHECK(core.Check):
                "that `import ioflo` itself loads (55 of the 150 module files) succeeds; C01_after_root_partial: every module "
                "outside D01c imports after `import ioflo`; C01_first_noncore_partial: after any sequence of such imports "
                "the first import of any other module outside D01c succeeds; C01_reimport: once imported, always "
-               "importable; C01_finished_namespaces_stable (generic importAll_frame): no sequence of imports changes "
+               "importable; C01_pair_partial / C01_any_order_pair_partial (kernel table over ordered pairs: for every module "
+               "a, every other module m of its package and every module that statically imports a): `import a; import m` "
+               "succeeds, and so does every sequence over {a, m} and the 55 core modules when the table relates a and m in "
+               "both directions; C01_whole_tree_partial: all modules in one interpreter, in name order and in reverse "
+               "order; C01_finished_namespaces_stable (generic importAll_frame): no sequence of imports changes "
                "the namespace of a module that had finished initialising, except for binding loaded sub-modules on their "
                "package. NOT proved "
                "(only exercised by the ordered pairs and random orders of the correspondence): that the first import of a "
-               "module outside that set succeeds after imports of OTHER modules outside that set (C01_any_order_full)",
+               "module outside that set succeeds after imports of TWO OR MORE other modules outside that set, or after one "
+               "that the pair table does not relate to it (C01_any_order_full)",
                "outside the model: imports and name uses inside function bodies executed at import time, dynamic namespace "
                "manipulation (globals().update), conditions the translator cannot fold (listed under translator.notes)"]
     TECHNIQUE = ("Lean 4: interpreter of CPython's import protocol over an import graph regenerated from the source on every "
@@ -397,6 +403,17 @@ class CHECK(core.Check):
         cases = [self._random_case(rng, dom) for _ in range(n)]
         if tier == "thorough" and not self._synth_done:
             self._synth_done = True
+            # the part of C01_any_order_full that is not proved: first imports of modules outside the core after
+            # other such modules.  A seeded sample of ordered pairs and triples across packages.
+            core_out = self.impl({"order": ["ioflo"]}) if "ioflo" in dom else ["-"]
+            core = {x.split(":")[0] for x in core_out[-1].split()}
+            non = [m for m in dom if m not in core]
+            for _ in range(900 if len(non) > 2 else 0):
+                a, b = rng.sample(non, 2)
+                if a.rpartition(".")[0] != b.rpartition(".")[0]:
+                    cases.append({"order": [a, b]})
+            for _ in range(300 if len(non) > 3 else 0):
+                cases.append({"order": rng.sample(non, 3)})
             cases += self.synth_cases(rng)
         return self.prefetch(cases)
 
